@@ -264,7 +264,95 @@ def root_var(e):
         return None
     if isinstance(e, ast.Subscript):
         return root_var(e.value)
+    if isinstance(e, (ast.ListComp, ast.GeneratorExp)) and len(e.generators) == 1:
+        g = e.generators[0]
+        if isinstance(g.target, ast.Name) and root_var(e.elt) == g.target.id:
+            return root_var(g.iter)
+        return None
+    if isinstance(e, (ast.List, ast.Tuple)) and len(e.elts) == 1:
+        return root_var(e.elts[0])
     return None
+
+
+# methods of the aggregate-function classes and of the cube that are called from fill / reduce:
+# name -> (positions of the arguments they write in place, what they return)
+KNOWN_CALLS = {
+    "adjust_zeros": ([0], "alias0"),
+    "_compute_common_cells_from_marginal_diffs": ([0], "fresh"),
+    "flat_regions": ([], "alias0"),
+    "bins": ([], "fresh"),
+    "op": ([], "fresh"),
+    "qfunc": ([], "fresh"),
+    "weighted_quantile": ([], "fresh"),
+    "_fill_one_no_coordinates": ([0], "fresh"),
+    "_fill_one_by_coordinates": ([0], "fresh"),
+}
+NUMPY_INPLACE = {"copyto", "put", "putmask", "place", "put_along_axis", "fill_diagonal"}
+PURE_BUILTINS = {"len", "isinstance", "range", "int", "float", "bool", "tuple", "list", "max", "min", "zip", "enumerate",
+                 "slice", "print", "sum", "abs", "getattr", "hasattr", "type", "str", "repr", "any", "all", "sorted",
+                 "reduce", "ValueError", "TypeError", "NotImplementedError"}
+
+
+def call_effects(e):
+    """names written in place by the calls occurring anywhere inside expression `e`"""
+    out = []
+    for c in ast.walk(e):
+        if not isinstance(c, ast.Call):
+            continue
+        f = c.func
+        for kw in c.keywords:
+            if kw.arg == "out":
+                r = root_var(kw.value)
+                if r is None:
+                    raise Unsupported("out= target")
+                out.append(r)
+        if isinstance(f, ast.Name):
+            if f.id not in PURE_BUILTINS:
+                raise Unsupported("call of %s" % f.id)
+            continue
+        if not isinstance(f, ast.Attribute):
+            raise Unsupported("call through %s" % type(f).__name__)
+        owner = f.value
+        if isinstance(owner, ast.Name) and owner.id in ("numpy", "np"):
+            if f.attr in NUMPY_INPLACE:
+                r = root_var(c.args[0]) if c.args else None
+                if r is None:
+                    raise Unsupported("numpy.%s target" % f.attr)
+                out.append(r)
+            for kw in c.keywords:
+                if kw.arg == "copy" and isinstance(kw.value, ast.Constant) and kw.value.value is False and c.args:
+                    r = root_var(c.args[0])
+                    if r is not None:
+                        out.append(r)
+            continue
+        if isinstance(owner, ast.Attribute) and isinstance(owner.value, ast.Name) and owner.value.id in ("numpy", "np"):
+            if f.attr in ("at", "reduceat", "accumulate", "outer", "reduce"):      # numpy.<ufunc>.at(a, ...) is in place
+                if f.attr == "at":
+                    r = root_var(c.args[0]) if c.args else None
+                    if r is None:
+                        raise Unsupported("ufunc.at target")
+                    out.append(r)
+                continue
+            continue                                                                # numpy.errstate(...), numpy.random...
+        if isinstance(owner, ast.Name) and owner.id in ("self", "cube", "xfunc", "ffunc"):
+            if f.attr not in KNOWN_CALLS:
+                raise Unsupported("call of %s.%s" % (owner.id, f.attr))
+            for k in KNOWN_CALLS[f.attr][0]:
+                r = root_var(c.args[k]) if k < len(c.args) else None
+                if r is None:
+                    raise Unsupported("argument %d of %s" % (k, f.attr))
+                out.append(r)
+            continue
+        if isinstance(owner, ast.Name) and owner.id in ("time", "operator", "itertools", "math", "warnings"):
+            continue
+        if f.attr in MUTATING_METHODS:
+            r = root_var(owner)
+            if r is None:
+                raise Unsupported("in-place method on %s" % ast.dump(owner)[:40])
+            out.append(r)
+            continue
+        # any other method of an array / tuple / dict object: treated as pure (astype, sum, copy, any, get, ...)
+    return out
 
 
 def classify(e):
@@ -279,9 +367,16 @@ def classify(e):
         return ("fresh",)
     if isinstance(e, ast.Subscript):
         return classify(e.value)
+    if isinstance(e, (ast.ListComp, ast.GeneratorExp, ast.List, ast.Tuple)):
+        r = root_var(e)
+        return ("alias", r) if r is not None else ("fresh",)
     if isinstance(e, ast.Call):
         f = e.func
         if isinstance(f, ast.Attribute):
+            if isinstance(f.value, ast.Name) and f.value.id in ("self", "cube", "xfunc", "ffunc") and f.attr in KNOWN_CALLS:
+                if KNOWN_CALLS[f.attr][1] == "alias0" and e.args:
+                    return classify(e.args[0])
+                return ("fresh",)
             if isinstance(f.value, ast.Name) and f.value.id in ("numpy", "np"):
                 if f.attr in ALIAS_FUNCS and e.args:
                     return classify(e.args[0])
@@ -365,7 +460,12 @@ class PurityTranslator:
                     continue
                 for np_, nret, ndone in self.stmt(s, p, rename):
                     nxt.append((np_, nret, ndone))
-            live = nxt
+            live, seen = [], set()
+            for q, r, d in nxt:                       # identical instruction lists need not be carried twice
+                key = (tuple(q), id(r), d)
+                if key not in seen:
+                    seen.add(key)
+                    live.append((q, r, d))
             if len(live) > 256:
                 raise Unsupported("too many paths")
         if want_return:
@@ -472,6 +572,160 @@ def gen_purity(sources):
             "def purityProgs : List (String × List Var × List Instr) := [\n%s\n]\n\nend Catii.Gen\n" % body), len(progs)
 
 
+# ----------------------------------------------------------------------------------------------
+# purity programs (C17), part 2: get_initial_regions / fill_func / fill / reduce and their helper methods
+# ----------------------------------------------------------------------------------------------
+METHODS = ("get_initial_regions", "fill_func", "fill", "reduce", "_fill_one_no_coordinates", "_fill_one_by_coordinates",
+           "weighted_quantile", "flat_regions", "bins")
+LIBRARY_OWNED = {"self", "cube", "regions", "coordinates", "size", "new", "condition"}   # parameters that are not caller buffers
+DIAGNOSTICS = {"tracing", "self.tracing"}
+
+
+_LOOP = object()      # "this pass over the loop body ends here" (continue / break)
+
+
+class MethodTranslator(PurityTranslator):
+    def __init__(self, kind):
+        PurityTranslator.__init__(self, {})
+        self.kind = kind
+
+    def stmt(self, s, p, rename):
+        rn = lambda v: rename.get(v, v)
+        if isinstance(s, ast.FunctionDef):           # a closure: its body runs later, in the same environment
+            q = p + [("fresh", a.arg) for a in s.args.args]
+            return [(path, None, False) for path, _ in self.block(s.body, [q], rename, want_return=True)]
+        if isinstance(s, ast.Expr):
+            if isinstance(s.value, ast.Constant):
+                return [(p, None, False)]
+            return [(p + [("write", rn(w)) for w in call_effects(s.value)], None, False)]
+        if isinstance(s, ast.AugAssign):
+            r = root_var(s.target)
+            if r in DIAGNOSTICS:
+                return [(p, None, False)]
+            if r is None:
+                raise Unsupported("augmented assignment target")
+            return [(p + [("write", rn(w)) for w in call_effects(s.value)] + [("write", rn(r))], None, False)]
+        if isinstance(s, ast.Assign) and isinstance(s.value, ast.IfExp):
+            out = []                                  # `x = a if c else b`: one path per branch
+            for v in (s.value.body, s.value.orelse):
+                s2 = ast.Assign(targets=s.targets, value=v)
+                out += self.stmt(s2, p + [("write", rn(w)) for w in call_effects(s.value.test)], rename)
+            return out
+        if isinstance(s, ast.Assign):
+            p = p + [("write", rn(w)) for w in call_effects(s.value)]
+            if len(s.targets) == 1 and isinstance(s.targets[0], ast.Tuple) and not isinstance(s.value, (ast.Name, ast.Tuple)):
+                # `a, b = f(...)`: every target gets what the call returns
+                c = classify(s.value)
+                q = list(p)
+                for e in s.targets[0].elts:
+                    n = root_var(e)
+                    if n is None:
+                        raise Unsupported("tuple target")
+                    q.append(("alias", rn(n), rn(c[1])) if c[0] == "alias" else ("fresh", rn(n)))
+                return [(q, None, False)]
+            return PurityTranslator.stmt(self, s, p, rename)
+        if isinstance(s, ast.Return):
+            q = list(p)
+            if s.value is not None:
+                q += [("write", rn(w)) for w in call_effects(s.value)]
+                if self.kind == "get_initial_regions":
+                    # the returned arrays are the regions fill() will write into: they must not be caller buffers
+                    vals = s.value.elts if isinstance(s.value, ast.Tuple) else [s.value]
+                    for v in vals:
+                        c = classify(v)
+                        if c[0] == "alias":
+                            q.append(("write", rn(c[1])))
+            return [(q, s.value, True)]
+        if isinstance(s, ast.Try):
+            # the body may be abandoned at any statement: take "not at all" and "completely", each followed by no / any handler
+            starts = [(list(p), None, False)] + [(q, r, r is not None) for q, r in self.block(s.body, [list(p)], rename, want_return=True)]
+            out = []
+            for q, r, done in starts:
+                out.append((q, r, done))
+                if not done:
+                    for h in s.handlers:
+                        out += [(q2, r2, r2 is not None) for q2, r2 in self.block(h.body, [list(q)], rename, want_return=True)]
+            if s.finalbody:
+                fin = []
+                for q, r, done in out:
+                    fin += [(q2, r if done else r2, done or r2 is not None)
+                            for q2, r2 in self.block(s.finalbody, [list(q)], rename, want_return=True)]
+                out = fin
+            return out
+        if isinstance(s, (ast.If, ast.While)):
+            p = p + [("write", rn(w)) for w in call_effects(s.test)]
+        if isinstance(s, (ast.Continue, ast.Break)):
+            return [(p, _LOOP, True)]
+        if isinstance(s, ast.For):
+            p = p + [("write", rn(w)) for w in call_effects(s.iter)]
+            targets = [s.target] if isinstance(s.target, ast.Name) else (
+                list(s.target.elts) if isinstance(s.target, ast.Tuple) else [])
+            c = classify(s.iter)
+            for t in targets:
+                t = root_var(t)
+                if t is None:
+                    raise Unsupported("loop target")
+                p = p + [("alias", rn(t), rn(c[1])) if c[0] == "alias" else ("fresh", rn(t))]
+        if isinstance(s, (ast.For, ast.While)):
+            # no pass, or one pass over the body (nothing here relies on loop-carried aliasing)
+            out = [(p, None, False)]
+            once = [(q, (None if r is _LOOP else r), (r is not None and r is not _LOOP))
+                    for q, r in self.block(s.body, [list(p)], rename, want_return=True)]
+            out += once
+            return out
+        return PurityTranslator.stmt(self, s, p, rename)
+
+
+def self_attrs(fn):
+    """the attributes of self a method reads as data (not the methods it calls)"""
+    called = {id(c.func) for c in ast.walk(fn) if isinstance(c, ast.Call)}
+    out = []
+    for n in ast.walk(fn):
+        if isinstance(n, ast.Attribute) and isinstance(n.value, ast.Name) and n.value.id == "self" and id(n) not in called:
+            v = "self." + n.attr
+            if v not in out and v not in DIAGNOSTICS:
+                out.append(v)
+    return out
+
+
+def gen_method_purity(sources):
+    progs = []
+    for modname, src in sources:
+        tree = ast.parse(src)
+        for cls in tree.body:
+            if not isinstance(cls, ast.ClassDef):
+                continue
+            for fn in cls.body:
+                if isinstance(fn, ast.FunctionDef) and fn.name in METHODS:
+                    if len(fn.body) <= 2 and any(isinstance(x, ast.Raise) for x in fn.body):
+                        continue                     # abstract placeholder
+                    params = [a.arg for a in fn.args.args if a.arg not in LIBRARY_OWNED]
+                    inputs = params + self_attrs(fn)
+                    tr = MethodTranslator(fn.name)
+                    paths = tr.block(fn.body, [[]], {})
+                    seen = []
+                    for path in paths:
+                        if path not in seen:
+                            seen.append(path)
+                    for k, path in enumerate(seen):
+                        progs.append(("%s.%s.%s#%d" % (modname, cls.name, fn.name, k), inputs, path))
+    def instr(i):
+        if i[0] == "alias":
+            return ".alias %s %s" % (lean_str(i[1]), lean_str(i[2]))
+        return ".%s %s" % (i[0], lean_str(i[1]))
+    body = ",\n".join("  (%s, [%s], [%s])" % (lean_str(n), ", ".join(lean_str(v) for v in ins),
+                                              ", ".join(instr(i) for i in path)) for n, ins, path in progs)
+    return ("import CatiiModel.Store\n"
+            "-- GENERATED by tools/translate.py from src/catii/ffuncs.py and xfuncs.py (get_initial_regions, fill_func /\n"
+            "-- fill with its closures, reduce and their helper methods of every aggregate function class, one program per\n"
+            "-- control-flow path; caller-owned = the data attributes of self the method reads + its array parameters;\n"
+            "-- library-owned = regions, cube, coordinates); do not edit\n"
+            "namespace Catii.Gen\nopen Catii.Store\n\n"
+            "/-- (method#path, caller-owned inputs, alias/fresh/write program) -/\n"
+            "def methodProgs : List (String × List Var × List Instr) := [\n%s\n]\n\nend Catii.Gen\n" % body), len(progs)
+
+
+
 def write_if_changed(path, text):
     try:
         if open(path, encoding="utf-8").read() == text:
@@ -503,6 +757,12 @@ def main():
         write_if_changed(os.path.join(GEN, "Purity.lean"), text)
     except (Unsupported, SyntaxError, KeyError) as e:
         print("translate: aggregate constructors outside translatable subset: %s" % e, file=sys.stderr)
+        status = 3
+    try:
+        text, n = gen_method_purity([("ffuncs", rd("ffuncs.py")), ("xfuncs", rd("xfuncs.py"))])
+        write_if_changed(os.path.join(GEN, "PurityMethods.lean"), text)
+    except (Unsupported, SyntaxError, KeyError, IndexError) as e:
+        print("translate: aggregate fill/reduce methods outside translatable subset: %s" % e, file=sys.stderr)
         status = 3
     return status
 
